@@ -231,9 +231,28 @@ func readSQL(s string) (string, bool) {
 var nastyStrings = []string{"admin", "a\"b", "x\\", "\\\"; DROP", "line\nbreak", "tab\t\x00", "é晓", "\xff\xfe", "", "' OR 1=1 --", "%_\\%"}
 
 type gen20 struct {
-	bound map[string]*val.Val // names bound in the run-time environment
-	tenv  *types.Env
+	bound  map[string]*val.Val // names bound in the run-time environment
+	tenv   *types.Env
 	simple bool
+	seq    int // > 0: leaves are numbered instead of chosen (H20_deep)
+}
+
+// seqCond: the k-th leaf of a tree, all distinct, cycling through a plain
+// comparison, an IN list and a comparison with a bound instant (the last two
+// render with a closing parenthesis at their right end)
+func (g *gen20) seqCond() (Criteria, string) {
+	k := g.seq
+	g.seq++
+	ks := strconv.Itoa(k)
+	switch k % 3 {
+	case 1:
+		return Cond{Field: "n", Operator: sql.GT, Operands: []ast.Expr{ast.Num(ks, pos.Unknown)}}, "cond:" + g.fieldText("n") + ":>:" + ks
+	case 2:
+		a, b := ast.Num(ks, pos.Unknown), ast.Num(ks+"1", pos.Unknown)
+		return Cond{Field: "n", Operator: sql.IN, Operands: []ast.Expr{ast.List([]ast.Expr{a, b}, pos.Unknown)}}, "cond:" + g.fieldText("n") + ":IN:" + ks + ";" + ks + "1"
+	default:
+		return Cond{Field: "t", Operator: sql.GT, Operands: []ast.Expr{ast.Var("u", pos.Unknown)}}, "cond:" + g.fieldText("t") + ":>:" + g.fieldText("u")
+	}
 }
 
 func (g *gen20) numLit(name string) (ast.Expr, string) {
@@ -246,6 +265,10 @@ func (g *gen20) numLit(name string) (ast.Expr, string) {
 
 func (g *gen20) strLit(name string) (ast.Expr, string) {
 	s := nastyStrings[sv.Choice(name, len(nastyStrings))]
+	if sv.Choice(name+".raw", 2) == 1 {
+		// the same string written as a raw literal (back quotes, nothing escaped)
+		return ast.Str("`"+s+"`", pos.Unknown), strconv.Quote(s)
+	}
 	return ast.Str(strconv.Quote(s), pos.Unknown), strconv.Quote(s)
 }
 
@@ -281,6 +304,9 @@ func (g *gen20) simpleCond(name string) (Criteria, string) {
 }
 
 func (g *gen20) cond(name string) (Criteria, string) {
+	if g.seq > 0 {
+		return g.seqCond()
+	}
 	if g.simple {
 		return g.simpleCond(name)
 	}
@@ -425,5 +451,16 @@ func H20_operands() {
 		o, os := g.simpleCond("o")
 		c, want = CondGroup{LogicalOper: OR, Conds: []Criteria{CondGroup{LogicalOper: AND, Conds: []Criteria{c, o}}, o}}, "or(and("+want+";"+os+");"+os+")"
 	}
+	checkSQL(g, c, want)
+}
+
+// H20_deep: every AND / OR / NOT tree to depth 3 over numbered leaves (all
+// distinct; plain comparisons, IN lists and from_unixtime(...) operands in
+// turn), so that groups whose text begins and ends with a parenthesis occur
+// under every connective.
+func H20_deep() {
+	g := &gen20{bound: map[string]*val.Val{}, tenv: sqlEnv(), seq: 1}
+	g.bound["u"] = val.Time(time.Unix(1700000000, 0))
+	c, want := g.tree(3, "c")
 	checkSQL(g, c, want)
 }
